@@ -147,6 +147,12 @@ def sampling(tier, rng, rep):
                 d_own = float(np.arccosh(max(1.0, spec.cosh_d_klein(kp, np.asarray(ys.coords("klein"), dtype=float)))))
                 if not (abs(d_lib - abs(ts)) <= 1e-3 * abs(ts) + 1e-7) or not (abs(d_own - abs(ts)) <= 1e-3 * abs(ts) + 1e-7):
                     rep.fail("point_along_distance", f"t={ts}: the point reached is at distance {d_lib} (library) / {d_own} (closed form) from the basepoint", {**inp, "t": ts}); break
+            # long distances (the Klein radius tanh t is 1 - 1e-9 and closer to 1, still an interior point in float64)
+            for tf in (8.5, -10.5, 12.0):
+                yf = tv.point_along(tf)
+                d_far = float(p.distance(yf))
+                if not (abs(d_far - abs(tf)) <= 1e-4 * abs(tf)):
+                    rep.fail("point_along_distance", f"t={tf}: the point reached is at distance {d_far} from the basepoint", {**inp, "t": tf}); break
             # following the unit tangent towards a NEARBY point for d(p, q') arrives at q'
             qn = tv.point_along(7e-4)
             arrn = p.unit_tangent_towards(qn).point_along(p.distance(qn))
